@@ -52,7 +52,10 @@ def entryGameProtocol (args : List String) : String :=
     | _, _, _, _, _ => "bad-case"
   | _ => "bad-case"
 
+/-- `game-generic` and `game-module` are served by the dispatch model (`Run/Dispatch.lean`: `Dispatch.generic`,
+`Dispatch.moduleQuery` over the generated rows); `entryGameGeneric` / `entryGameModule` above are the Valve-only
+model of `Proto/Games.lean`, which `C14_dispatch_valve_arm` identifies with the Valve arm of the dispatch. -/
 def gameEntries : List (String × (List String → String)) :=
-  [("game-generic", entryGameGeneric), ("game-module", entryGameModule), ("game-protocol", entryGameProtocol)]
+  [("game-protocol", entryGameProtocol)]
 
 end Gd.Run
